@@ -134,6 +134,64 @@ CHECKS = {
             C_TIE + "CPython's dispatch of C-level dict methods to the Python overrides is runtime behaviour covered only by the differential run on all 38 library types.",
             "Coq invariant proof by induction over operation histories + differential run after every operation on all fixeddict types",
             "DESIGN.md 3 C27"),
+    "C17": (True,
+            "All five statements of the property are theorems on hand models of constraint_table.py and assert_level_constraint: value-set containment "
+            "after any tree of add_value/add_range/union for every set iteration order (no lo<=hi hypothesis needed), disjointness correct for lo<=hi "
+            "ranges, allowed_values_for <-> is_allowed_combination for tables without empty-dict columns and fresh keys, one-at-a-time checking <-> every "
+            "prefix allowed for distinct keys (exact one-column rule for repeated keys), CSV cell semantics with dittos. Refutation witnesses show each "
+            "hypothesis is needed. PARTIAL only for CSV text tokenisation.",
+            C_TIE + "Python sets are modelled up to permutation; csv.reader/strip/lower/int/partition are outside the model (exercised by printed tables and the shipped CSVs).",
+            "Coq proofs by induction over operation trees closed under permutation + differential run incl. exhaustive small value sets",
+            "DESIGN.md 3 C17"),
+    "C11": (True,
+            "8 theorems over hand models of the lifting stages and the 2-D transform with the filter tables as VARIABLES: every lift is undone by the "
+            "swapped lift (sequential in-place loop, any L, D, taps, S), 1-D round trip for every stage list, and C11_roundtrip: for all filters (hence all "
+            "7x7 pairs), all depths d, dh >= 0, all picture sizes >= 1x1 and all integer samples, idwt_pad_removal(idwt(dwt(dwt_pad_addition pic))) = pic; "
+            "every subband of dwt has the subband_width/height of the regenerated slice geometry.",
+            C_TIE + "Padding sizes and shapes use Gen/SliceSizes.v (tie T). The model is faithful where Python returns normally (S>=0, len(taps)>=L, rectangular rows).",
+            "Coq proofs (loop invariant: writes and reads have opposite parity; induction on depth) + differential run comparing every coefficient array in both directions",
+            "DESIGN.md 3 C11"),
+    "C18": (True,
+            "11 theorems for ALL patterns and ALL symbol sequences over a model of the parser, Thompson construction and Matcher (repaired, directed empty "
+            "transitions): NFA paths <-> language, matcher alive <-> viable prefix, match_symbol exact and state unchanged on failure, is_complete <-> match, "
+            "valid_next_symbols (symbols, WILDCARD, END_OF_SEQUENCE) exact, under the property's hypothesis on '$' (shown necessary). The pinned behaviour is "
+            "proved to violate the property and to only over-approximate. Parser fuel sufficient; print/parse language-equal.",
+            C_TIE + "Tokenizer not modelled (harness reading compared with tokenize_regex). Thorough tier uses an OCaml extraction (ExtrOcamlBasic only) cross-checked against vm_compute.",
+            "Coq proofs (path semantics, construction invariants, closure termination) + exhaustive small-pattern differential run through the real parser and Matcher + derivative oracle",
+            "DESIGN.md 3 C18"),
+    "C14": (True,
+            "Theorems, unbounded in coefficients/slice counts/picture_bytes, over a model of quantize_to_fit and both lossy packers built on the regenerated "
+            "quantisation, exp-Golomb length, slice_bytes and safe-scaler arithmetic: chosen qindex fits, is >= minimum and minimal (search terminates; fits is "
+            "monotone), qindex within its 7/8-bit field or the Insufficient*PictureBytes error (repaired behaviour), every HQ length field in 0..255 for any "
+            "picture_bytes and scaler override, HQ total within slice_size_scaler of picture_bytes (exact formula), LD slices exactly slice_bytes with "
+            "slice_y_length < 2^length_bits, LD sizes sum to picture_bytes.",
+            C_TIE + "Arithmetic is tie T (Gen/Quant, ExpGolombLen, SliceSizes, EncBudget). Slice wire sizes are measured on the real serialiser.",
+            "Coq proofs on a hand model over translated arithmetic + 560 correspondence cases + full-stack oracle re-checking minimality by exhaustive re-quantisation",
+            "DESIGN.md 3 C04/C14"),
+    "C04": (True,
+            "Theorems: DC prediction round trip on any band, index 0 is the identity both ways, truncated-trailing-zero coefficient blocks read back exactly, "
+            "encoder gather and decoder scatter are inverse (from the C13 cover lemmas), lossless and index-0 lossy slices round-trip with 8-bit length fields, "
+            "and the composed chains decode(encode p) = p. PARTIAL: the wavelet round trip (C11's theorem) enters the composition as a Section hypothesis and the "
+            "byte container around slices is covered by the full-stack oracle (exact picture equality through the real validator).",
+            C_TIE + "Uses Gen/* (tie T) and Proofs/SliceSizesProofs.v.",
+            "Coq proofs on hand model over translated arithmetic + full-stack lossless / qindex-0 round-trip oracle",
+            "DESIGN.md 3 C04/C14"),
+    "C08": (True,
+            "Theorems for all bit strings, slice parameters and fuel over self-contained models of BOTH slice readers (validator: bits_left/flush_inputb; "
+            "deserialiser: bounded blocks, clamped slice_y_length): when the validator reads a slice the deserialiser reads it too, leaves the same unread bits, "
+            "and its dequantised coefficients equal the validator's; qindex/length fields agree; they fail together except for InvalidSliceYLength, raised by the "
+            "validator exactly when the deserialiser clamps; padding bits are irrelevant; whole slice sequences agree. PARTIAL: data-unit sequence and header values "
+            "agree is checked by the differential oracle only.",
+            C_TIE + "Geometry/quantisation/intlog2/mean are tie T.",
+            "Coq proofs relating two reader models + per-slice differential run of both real parsers + whole-stream oracle",
+            "DESIGN.md 3 C08"),
+    "C09": (True,
+            "Theorems: for arbitrary integer coefficient arrays the clipped+offset samples lie in [0, 2^depth-1] with depth = intlog2(excursion+1) >= 1; pad removal "
+            "yields exactly width x height; picture number = coded number; over any unit list one picture is output per picture unit and per completed fragmented "
+            "picture, carrying the coded number. The inverse transform itself is C11's.",
+            C_TIE + "clip/intlog2 are tie T.",
+            "Coq proofs on hand models of picture_decode's tail and the call sites + differential run on re-packed extreme/random/dangling coefficient streams",
+            "DESIGN.md 3 C09"),
 }
 
 NOT_YET = "check not built yet (work in progress; see DESIGN.md section 7 work order)"
